@@ -31,7 +31,12 @@ func randomWorkload(en *Env, cfg h.Cfg, nkeys int, o genOpts, reopenCfg func() h
 	e.Dump()
 	r := en.R
 	klen := len(u.Key(1))
+	var recent []int
 	newVal := func() int {
+		// an ordinary caller often writes a value it has written before, from the same slice
+		if len(recent) > 0 && r.Intn(4) == 0 {
+			return recent[r.Intn(len(recent))]
+		}
 		off := int64(0)
 		for _, f := range e.DB.VerifState().Files {
 			if f.Active {
@@ -39,6 +44,10 @@ func randomWorkload(en *Env, cfg h.Cfg, nkeys int, o genOpts, reopenCfg func() h
 			}
 		}
 		id, _ := vs.New(h.PickLen(r, off, klen, e.Cfg.Limit))
+		recent = append(recent, id)
+		if len(recent) > 6 {
+			recent = recent[1:]
+		}
 		return id
 	}
 	for i := 0; i < o.ops && !e.Dead; i++ {
